@@ -22,7 +22,7 @@ func init() {
 	Register("C30", &Info{
 		Run:  runC30,
 		Race: true,
-		Quick: 8000, Thor: 300000,
+		Quick: 8000, Thor: 1000000,
 		Rule: "a world = one seed, 1-3 tasks sharing one prng and issuing Read(n)/Int63/Uint64 (stream-consuming, checked with porcupine against an independent SHAKE256 stream computed with the standard library) plus Intn/Int63n/Range/FlipWeightedCoin with boundary arguments (range post-conditions), scheduled at every mutex acquisition; plus salted-seed determinism against an independent HKDF-SHA3-256; non-trivial = >=2 tasks overlapped on the prng, or a single task consumed >=2 stream segments; distinct = (seed, op lists, schedule hash)",
 		Assumptions: []string{"helper post-conditions are pure functions; only the concurrent-stream and cross-run determinism parts owe anything to the simulator",
 			"FlipWeightedCoin(weight>=1) may be false with probability 2^-63 per the statement; such a draw would be reported (it does not occur for sampled seeds)"},
